@@ -1,5 +1,5 @@
 (* Case runner and spec checker (T3) for C13. *)
-From WI Require Import Lib.Base Lib.Info Lib.Strings Lib.Time Model.Der.
+From WI Require Import Lib.Base Lib.Info Lib.Strings Lib.Time Model.Der Model.Render.
 Open Scope N_scope.
 
 (* which variant of the model the correspondence runs: the code as it is now *)
@@ -35,6 +35,12 @@ Fixpoint raw_enc (t : tlv) : arg * bytes :=        (* the observation and the en
 Definition raw_arg (t : tlv) : arg := fst (raw_enc t).
 
 Definition obs_ok (a : arg) : arg := AL [AZ 0; a].
+
+(* a printed line as (number of leading blanks, rest) *)
+Fixpoint leading_blanks (l : bytes) : nat :=
+  match l with 32 :: r => S (leading_blanks r) | _ => O end.
+Definition line_obs (l : bytes) : arg :=
+  let n := leading_blanks l in AL [AZ (Z.of_nat n); AB (skipn n l)].
 
 Definition info_of_obs (a : arg) : info :=
   match a with
@@ -90,6 +96,9 @@ Definition run_C13 (op : bytes) (input : arg) : arg :=
   else if bytes_eqb op (bs "typed") then
     typed_unmarshal (arg_N (arg_nth 0 input)) (arg_N (arg_nth 1 input)) (arg_bool (arg_nth 2 input))
                     (arg_N (arg_nth 3 input)) (arg_bytes (arg_nth 4 input))
+  else if bytes_eqb op (bs "clidump") then
+    (* the report the CLI prints for the file, line by line: Model/Render.v applied to the model's dump *)
+    AL [AZ 0; AL (map line_obs (lines_of sanitize (asn1_file legacy_now (info_of_obs (arg_nth 2 input)) data) 0))]
   else if bytes_eqb op (bs "deepcli") then
     (* (exit status, "unknown ASN.1 data", "ASN.1 data"); beyond 5000 levels the answer is the one
        Proofs.Der.nested_too_deep proves instead of an evaluation *)
@@ -429,6 +438,20 @@ Definition sp_min_depth_limit : N := 64.
 Definition sp_within_limits (ts : list tlv) : bool :=
   forallb (fun t => (sp_max_tag t <? 2147483648) && (sp_height t <=? N.max max_depth sp_min_depth_limit)) ts.
 
+(* document order of the elements with their nesting depth; line k of a printed dump (after the
+   first) must be indented by two blanks per level *)
+Fixpoint sp_depths (d : nat) (t : tlv) : list nat :=
+  match t with
+  | Prim _ _ _ => [d]
+  | Cons _ _ ch => d :: flat_map (sp_depths (S d)) ch
+  end.
+Fixpoint sp_indents_match (ds : list nat) (ls : list arg) : bool :=
+  match ds, ls with
+  | [], [] => true
+  | d :: ds', AL [AZ n; AB _] :: ls' => Z.eqb n (Z.of_nat (2 * d)) && sp_indents_match ds' ls'
+  | _, _ => false
+  end.
+
 Definition sp_forest_match (ts : list tlv) (i : info) : option string :=
   match i with
   | Info desc attrs ch =>
@@ -612,6 +635,22 @@ Definition check_C13 (op : bytes) (input impl : arg) : arg :=
         if sp_value_ok (arg_N (arg_nth 0 input)) (arg_N (arg_nth 1 input)) (arg_bytes (arg_nth 2 input)) v then AL []
         else AS "value of a primitive element not rendered faithfully"
     | _ => AS "rendering a value failed (panic or error)"
+    end
+  else if bytes_eqb op (bs "clidump") then
+    match impl with
+    | AL [AZ 0%Z; AL ls] =>
+        if negb (bytes_eqb (i_desc (info_of_obs (arg_nth 2 input))) (bs "unknown ASN.1 data")) then AL []   (* a recognised type *)
+        else match ls with
+             | AL [AZ 0%Z; AB first] :: rest =>
+                 let ts := forest_of_arg (arg_nth 1 input) in
+                 if bytes_eqb first (bs "unknown ASN.1 data") then
+                   (if sp_within_limits ts then AS "well-formed DER reported as unknown ASN.1 data" else AL [])
+                 else if negb (bytes_eqb first (bs "ASN.1 data")) then AS "unexpected first line of the printed dump"
+                 else if sp_indents_match (flat_map (sp_depths 1) ts) rest then AL []
+                 else AS "printed dump: the indentation of the lines does not mirror the nesting of the elements"
+             | _ => AS "printed dump: the first line is indented or missing"
+             end
+    | _ => AS "the program failed on a generic dump (non-zero exit status)"
     end
   else if bytes_eqb op (bs "deepcli") then
     match impl with
